@@ -34,6 +34,15 @@ def all_windows(m):
 
 def cases(tier):
     q = tier == 'quick'
+    # a singular value of Psi_x only 1.4 times above the routine's internal relative cut of 1e-3, next to three equal dominant
+    # ones (indicator features with disjoint supports, so the spectrum is known in closed form)
+    for per in (2, 3):
+        for var in ('hosvd', 'hocur'):
+            for ratio in (1.4e-3, 1.6e-3):
+                cs = {'near': True, 'per': per, 'ratio': ratio, 'var': var, 'd': 3, 'm': 4 * per + 1, 'ws': [], 'iset': [[list(range(4 * per)), list(range(1, 4 * per + 1))]]}
+                if var == 'hosvd':
+                    cs.update({'thr': 1e-12, 'mr': 'inf', 'fl': [0, 0]})
+                yield cs
     for d in (1, 2):
         for m in ((4, 6, 8) if q else (4, 5, 6, 7, 8)):
             for ws in ([(1, 2), (3, 2)], [(0, 3), (2, 2)], [(1, 2), (3, 2), (4, 2)], [(0, 2), (1, 3)]):
@@ -99,8 +108,20 @@ def run_case(case, seed):
         x = rng.integers(-3, 4, size=(d, m))          # integer dtype: the transformed data are real-valued all the same
         for c_ in range(d):                            # distinct snapshots
             x[c_] = x[c_] + 7 * np.arange(m) * (c_ == 0)
+    if case.get('near'):
+        import scikit_tt.data_driven.transform as tdt
+        per = case['per']
+        quad = [(sa, sb) for sa in (-1, 1) for sb in (-1, 1)]
+        cols = []
+        for j in range(m):
+            sa, sb = quad[(j // 1) % 4] if j < 4 * per else quad[0]
+            cols.append([sa * rng.uniform(0.3, 1.2), sb * rng.uniform(0.3, 1.2), case['ratio'] if (sa, sb) == (1, 1) else 1.0])
+        x = np.array(cols).T
     x0 = x.copy()
     basis = [[reps(kk % d)[(s + j) % NREP] for j in range(n)] for kk, (s, n) in enumerate(case['ws'])]
+    if case.get('near'):
+        basis = [[tdt.IndicatorFunction(0, -10.0, 0.0), tdt.IndicatorFunction(0, 0.0, 10.0)],
+                 [tdt.IndicatorFunction(1, -10.0, 0.0), tdt.IndicatorFunction(1, 0.0, 10.0)], [tdt.Identity(2)]]
     nmode = [len(b) for b in basis]
     P = psi_oracle(x, basis).reshape(-1, m)
     iset = case['iset']
@@ -172,7 +193,7 @@ def run_case(case, seed):
             if exact:
                 Px, Py = P[:, np.array(iset[kpos][0])], P[:, np.array(iset[kpos][1])]
                 sv = np.linalg.svd(Px, compute_uv=False); rel = sv / sv[0]
-                if np.any((rel > 1e-4) & (rel < 1e-2)) or np.any((rel > 1e-14) & (rel < 1e-9)):
+                if not case.get('near') and (np.any((rel > 1e-4) & (rel < 1e-2)) or np.any((rel > 1e-14) & (rel < 1e-9))):
                     r.skipped += 1
                     continue
                 Kt = np.linalg.pinv(Px.T, rcond=1e-3) @ Py.T           # N x N
